@@ -19,6 +19,13 @@ CHECKS = {
         note="Trusts the reference model in vf/props/c14.py and the operand restrictions listed in the evidence assumptions (shapes where item-equality and key algebra could legitimately differ are not generated).",
         ref="DESIGN.md section 4, C14",
     ),
+    "C15": dict(
+        level="exploration",
+        technique="differential property testing: generated (annotation, value) pairs vs an independent descriptor-level reference checker; exhaustive at depth <= 1/2, Hypothesis to depth 3, atheris byte-level campaigns",
+        text="check_type is compared with a reference checker that never looks at typing objects (it works on the descriptor the annotation was built from) on every annotation of depth <= 1 (thorough: depth <= 2 over a reduced base) x derived conforming / one-position-broken values + a general pool, and on Hypothesis/atheris generated annotations to depth 3; any exception from check_type is a violation. Sampled beyond the enumerated depth.",
+        note="Trusts the reference checker vf/props/c15.py:conforms (written from the property statement) and the descriptor->annotation builder.",
+        ref="DESIGN.md section 4, C15",
+    ),
 }
 
 NOT_YET = "check not built yet in this revision (see DESIGN.md section 9 for the order); nothing is claimed"
